@@ -113,9 +113,30 @@ def simPapersGS (cfg : Cfg α) (d : Nat) : List (List Nat × SimGS α) → World
     (simPapersGS cfg d rest w1).map fun (rest', w2) => ((path, s') :: rest', w2)
 end
 
+mutual
+/-- the first date of the data (row 0): a tree and, recursively, its shadow copies are only updated (`Prog.simDay0`);
+    no algo is called, so the memories stay as they are -/
+def simDayGS0 (cfg : Cfg α) (d : Nat) : SimGS α → Except Err (SimGS α)
+  | .mk w t papers =>
+    (simPapersGS0 cfg d papers w).bind fun (papers', w1) =>
+    (updRoot cfg d w1).map fun w2 => .mk w2 t papers'
+def simPapersGS0 (cfg : Cfg α) (d : Nat) : List (List Nat × SimGS α) → World α →
+    Except Err (List (List Nat × SimGS α) × World α)
+  | [], w => pure ([], w)
+  | (path, s) :: rest, w =>
+    (simDayGS0 cfg d s).bind fun s' =>
+    let w1 : World α := { w with root := setPaperPx s'.world.price path w.root }
+    (simPapersGS0 cfg d rest w1).map fun (rest', w2) => ((path, s') :: rest', w2)
+end
+
 def simLoopGS (cfg : Cfg α) : List Nat → SimGS α → Except Err (SimGS α)
   | [], s => pure s
   | d :: ds, s => (simDayGS cfg d s).bind (simLoopGS cfg ds)
+
+/-- a shadow copy (already funded) over the dates of its owner's run -/
+def simShadowGS (cfg : Cfg α) : List Nat → SimGS α → Except Err (SimGS α)
+  | [], s => pure s
+  | d0 :: ds, s => (simDayGS0 cfg d0 s).bind (simLoopGS cfg ds)
 
 def simRunGS (cfg : Cfg α) (capital : α) (dates : List Nat) : SimGS α → Except Err (SimGS α)
   | .mk w0 t papers =>
@@ -123,7 +144,7 @@ def simRunGS (cfg : Cfg α) (capital : α) (dates : List Nat) : SimGS α → Exc
     | [] => throw Err.badPath
     | d0 :: ds =>
       (opAdjust w0 [] capital true true).bind fun w1 =>
-      (simPapersGS cfg d0 papers w1).bind fun (papers', w2) =>
+      (simPapersGS0 cfg d0 papers w1).bind fun (papers', w2) =>
       (updRoot cfg d0 w2).bind fun w3 => simLoopGS cfg ds (.mk w3 t papers')
 
 end
